@@ -304,6 +304,9 @@ impl HistMonitor for Twin {
             if a != b {
                 return Some(format!("right after {}: the copy differs from the source: {}", op.show(), first_diff(&a, &b)));
             }
+            if self.kind == Kind::Reload && s.cap >= 21_846 {
+                ctx.c.inc("twin.reloads-of-images-over-1MiB(capacity>=21846)");
+            }
             // complete internal state (trigger + evidence of "same read/unread status, same encoding")
             let (sa, sb) = (s.g.snapshot(), other.snapshot());
             if let Some(d) = snap_equal_mod_alloc(&sa, &sb, self.kind == Kind::Reload) {
